@@ -11,7 +11,7 @@ from lib import dbcsnap
 from lib import matrices as M
 
 PID = "C05"
-EXTRA_PROPS = ("Num", "C05b", "C05c", "C05d", "C05e", "C05f", "C05g", "C05h")
+EXTRA_PROPS = ("Num", "C05b", "C05c", "C05d", "C05e", "C05f", "C05g", "C05h", "C05i")
 RULE = ("case 'rt' = a generated matrix of DBC-expressible content (identifier names incl. names longer than 32 characters, ECU names "
         "of >= 2 characters, standard/extended ids, CAN FD and J1939 frames, simple and extended multiplexing, float signals, limits, "
         "start values inside the limits and on the raw grid, cycle times, value tables with quotes, comments over several lines with "
@@ -27,10 +27,11 @@ RULE = ("case 'rt' = a generated matrix of DBC-expressible content (identifier n
         "repeated and the file cut inside a line (variant 2) - read by dbc.load, the matrix it has built when its line loop ends (before the "
         "post-processing; taken without touching the reader, lib/dbcsnap.py) and the number of 'error with line no' against Model/DbcFile.lean readFile. "
         "Non-trivial = distinct case.")
-PARTIAL = ["theorems: every statement kind parse(render) = id, the frame section and the whole file of one-line statements as a fold of effects "
-           "(Props/C05f); not carried by a theorem: that the fold of the effects of the statements dump emits gives back the matrix (lookups "
-           "succeed, nothing overwritten), the reader's post-processing (carrier attributes, long names, start values), EV_ statements and the "
-           "text encodings: decided by the round-trip observation (S) and, for the line loop, by the correspondence with the reader model",
+PARTIAL = ["theorems: every statement kind parse(render) = id, the whole file as a fold of effects (Props/C05f), statements hit exactly their targets "
+           "(C05g), the core round trip frames/signals/senders/comments/value tables (C05h), three facts about the post-processing (C05i); not carried "
+           "by a theorem: that the folds of the attribute / group / multiplex statements give the matrix back, the numeric part of the post-processing "
+           "(cycle times, start values, ENUM conversion, multiplex bookkeeping), EV_ statements and the text encodings: decided by the round-trip "
+           "observation (S); the line loop and the name / reference part of the post-processing are models compared with dbc.load",
            "the statement patterns are regular expressions in the source and deterministic tokenizers in the model; they are compared "
            "line by line, not derived"]
 ASSUMPTIONS = ["envelope: names unique within their first 32 characters; text without a backslash directly before a quote (the writer does "
@@ -39,7 +40,7 @@ ASSUMPTIONS = ["envelope: names unique within their first 32 characters; text wi
                "initial values on the raw grid inside the limits; float signals start at small dyadic values"]
 TRUSTED = ["Python re module; codecs", "harness normal form lib/dbcgen.py:norm (folds GenMsgCycleTime, GenSigCycleTime, GenSigStartValue, "
            "VFrameFormat, BusType, ProtocolType, System*LongSymbol)"]
-CORRESPONDENCE = "frame section + BO_TX_BU_ + frame and signal comments of the real file == CanVerif.Dbc.writeCore; whole files (as written and damaged) read by dbc.load == CanVerif.Dbc.readFile; frame section lines and their reading == CanVerif.Dbc.writeFrames / readFrames / renderSg / parseSg / renderBo / parseBo / renderVal / parseVal"
+CORRESPONDENCE = "the matrix dbc.load returns (names, senders, receivers, ECU list, comments, text attributes, signals without frame) == CanVerif.Dbc.postProcess (readFile lines); frame section + BO_TX_BU_ + frame and signal comments of the real file == CanVerif.Dbc.writeCore; whole files (as written and damaged) read by dbc.load == CanVerif.Dbc.readFile; frame section lines and their reading == CanVerif.Dbc.writeFrames / readFrames / renderSg / parseSg / renderBo / parseBo / renderVal / parseVal"
 NSHARDS = {"quick": 16, "thorough": 16}
 
 FLAVOURS = [None] * 17 + ["quote_semicolon", "env_long", "long_ecu_prefix"]
@@ -201,7 +202,11 @@ def cases_of(desc, rng=None):
     yield {"op": "core", "c": {"m": desc, "frames": core_frames(r["db"], r["blocks"])}}
     # the file as a whole against the reader model of Model/DbcFile.lean: as written, and damaged (lines inserted, dropped, cut)
     for variant in range(3):
-        yield {"op": "whole", "c": {"m": desc, "variant": variant, "vseed": (rng.randrange(1 << 30) if rng is not None else 1)}}
+        vseed = rng.randrange(1 << 30) if rng is not None else 1
+        yield {"op": "whole", "c": {"m": desc, "variant": variant, "vseed": vseed}}
+        if variant < 2:
+            # ... and the matrix dbc.load returns against the model of the post-processing (Model/DbcPost.lean)
+            yield {"op": "post", "c": {"m": desc, "variant": variant, "vseed": vseed}}
     for bi, b in enumerate(r["blocks"]):
         if rng is None or rng.random() < 0.5:
             yield {"op": "bo", "c": {"m": desc, "bi": bi, "bo": b["bo"]}}
@@ -410,6 +415,25 @@ def observe_core(c, r):
     return {"core": out + vals}
 
 
+def observe_post(c, r):
+    enc = c["m"]["enc"]
+    cenc = c["m"].get("cenc", enc)
+    text = r["b1"].decode(enc, "replace")
+    if cenc != enc and any(ord(ch) > 127 for ch in text):
+        return {"skipped": "comment encoding differs from the file encoding"}
+    if any(ch in text for ch in "\x0b\x0c\x1c\x1d\x1e\x1f\x85\xa0"):
+        return {"skipped": "blank characters beyond the ASCII ones (str.strip and bytes.strip differ)"}
+    lines = damage(text.split("\n"), c["variant"], c["vseed"], r["db"])
+    try:
+        data = "\n".join(lines).encode(enc)
+    except UnicodeError:
+        return {"skipped": "not encodable"}
+    o = dbcsnap.load_final(data, enc)
+    if o["final"] is None:
+        return {"skipped": "load raised: " + str(o["exc"])}
+    return {"lines": o["lines"], "final": o["final"]}
+
+
 def section_lines(r):
     if r["first"] is None:
         return []
@@ -435,6 +459,8 @@ def observe(case):
         return observe_whole(c, r)
     if op == "core":
         return observe_core(c, r)
+    if op == "post":
+        return observe_post(c, r)
     if op == "file":
         upto = r["lines"][:r["end"]]
         return {"section": sec, "lines": upto, "read": real_blocks(upto, enc)}
@@ -612,6 +638,8 @@ def project(impl):
         return {"snap": impl["snap"]}
     if "core" in impl:
         return {"core": impl["core"]}
+    if "final" in impl:
+        return {"final": impl["final"]}
     if "section" in impl:
         return {"section": impl["section"], "read": impl["read"]}
     if "lines" in impl:
@@ -684,6 +712,10 @@ def features(case, impl):
             yield "core:several-senders"
         if any(f["comment"] and "\n" in f["comment"] for f in c["frames"]) or any(s["comment"] and "\n" in s["comment"] for f in c["frames"] for s in f["sigs"]):
             yield "core:comment-over-several-lines"
+    elif case["op"] == "post":
+        yield "post:variant=%d" % c["variant"]
+        if "skipped" in impl:
+            yield "post:skipped(%s)" % impl["skipped"][:40]
     elif case["op"] == "whole":
         yield "whole:variant=%d" % c["variant"]
         if "skipped" in impl:
